@@ -64,6 +64,8 @@ def census_crate(run, doc, cfgname, entry_reach_only=True, full=None):
         run.ob(False, "unsafe-item|%s|%s" % (m["kind"], m["path"]), "C16-3 no unsafe fn / extern item", "%s %s" % (m["file"], m["path"]), m["kind"])
     for i in doc["impls"]:
         if i.get("safety") not in (None, "Safe"):
+            if i.get("derived") and i["trait"].endswith("TrivialClone"):
+                continue       # emitted by #[derive(Clone, Copy)]: a marker with no methods
             run.ob(False, "unsafe-impl|%s|%s" % (i["trait"], i["self_ty"]), "C16-3 no unsafe impl", i["file"], "unsafe impl %s for %s" % (i["trait"], i["self_ty"]))
     for a in doc["adts"]:
         run.ob(a["freeze"], "adt-freeze|%s" % a["path"], "C16-2 no interior mutability in crate types", "%s %s" % (a["file"], a["path"]),
